@@ -111,6 +111,7 @@ class Controller:
         self.entered = {}
         self.recv = {}
         self.dispatched = {}
+        self.started_async = set()
         self.sched_thread = None
         self.invoker = threading.get_ident()
         self.open_all = False
@@ -126,6 +127,7 @@ class Controller:
         with self.cv:
             self.gates, self.at_gate, self.released = {}, set(), set()
             self.exited, self.entered, self.recv, self.dispatched = {}, {}, {}, {}
+            self.started_async = set()
             self.open_all = False
             self.helper = None
             self.in_wait = None
@@ -170,6 +172,16 @@ class Controller:
                     break
                 self.cv.wait(left)
             return {i for i in ids if i in self.at_gate and i not in self.released}
+
+    def _settle(self):
+        """Wait until every node that must reach a gate has reached it; return those gated now.
+
+        Thread nodes are handed to the pool at dispatch; an async-thread node reaches the pool once
+        the event loop has run after its task was created (marked at every asyncio wait)."""
+        with self.cv:
+            expected = [i for i, k in self.dispatched.items()
+                        if i not in self.exited and (k == "thread" or i in self.started_async)]
+        return self._wait_gate_arrival(expected)
 
     def _release(self, ids):
         with self.cv:
@@ -261,9 +273,7 @@ class Controller:
     def _inline_decision(self, me_id):
         if self.open_all:
             return
-        pooled = [i for i in self.pooled_in_flight(("thread",)) if i != me_id]
-        started_async = [i for i in self.pooled_in_flight(("async",)) if i in self.at_gate]
-        gated = sorted(self._wait_gate_arrival(pooled) | set(started_async), key=self.ix)
+        gated = sorted(self._settle() - {me_id}, key=self.ix)
         opts = subsets(gated, self.max_bg)
         choice = self.decide("inline", opts)
         if choice:
@@ -275,6 +285,9 @@ class Controller:
         mode = "ALL" if return_when == ALL_COMPLETED else "FIRST"
         self.log("wait_begin", k=kind, m=mode, s=[self.ix(i) for i in ids])
         self.in_wait = kind
+        if kind == "async":
+            with self.cv:
+                self.started_async |= {i for i, k in self.dispatched.items() if k == "async"}
         if self.open_all:
             return
         if kind == "thread":
@@ -295,10 +308,10 @@ class Controller:
 
     # a wait on thread futures: runs on the scheduler thread, may block it
     def _thread_wait(self, ids, mode, futures):
-        gated = self._wait_gate_arrival(ids)
+        settled = self._settle()
         done0 = [i for i in ids if futures[i].done()]
-        others = sorted((set(self.pooled_in_flight()) & self.at_gate) - set(ids) - self.released, key=self.ix)
-        cand = sorted(gated, key=self.ix)
+        others = sorted(settled - set(ids), key=self.ix)
+        cand = sorted(settled & set(ids), key=self.ix)
         if not cand and not done0:
             self.log("hang", k="nothing-to-release", s=[self.ix(i) for i in ids])
             self.release_everything()
@@ -334,9 +347,9 @@ class Controller:
     # a wait on asyncio futures: the scheduler coroutine is suspended, this runs on a helper thread
     def _async_wait(self, ids, mode):
         try:
-            gated = self._wait_gate_arrival(ids)
-            cand = sorted(gated, key=self.ix)
-            others = sorted((set(self.pooled_in_flight()) & self.at_gate) - set(ids) - self.released, key=self.ix)
+            settled = self._settle()
+            cand = sorted(settled & set(ids), key=self.ix)
+            others = sorted(settled - set(ids), key=self.ix)
             if not cand:
                 if any(i not in self.exited for i in ids):
                     self.log("hang", k="nothing-to-release", s=[self.ix(i) for i in ids])
@@ -433,11 +446,13 @@ def build_dag(cfg):
     lines = []
     for k in range(1, n + 1):
         parts = []
+        kws = []
         for j, d in enumerate(cfg["deps"][k - 1]):
             if cfg.get("kw") and cfg["kw"][k - 1][j]:
-                parts.append(f"p{j}=v{d}")
+                kws.append(f"p{j}=v{d}")
             else:
                 parts.append(f"v{d}")
+        parts += kws
         a = act[k - 1]
         if a is not None:
             if a[0] == "const":
